@@ -167,6 +167,11 @@ class Ctx:
 def run_check(pid, tier, seed, replay=None):
     """Returns process exit code."""
     t0 = time.time()
+    # errors the implementation handles and logs (with tracebacks) are not part of a verdict: without any handler Python's
+    # last-resort handler would print them to stderr in the middle of the check's output
+    import logging
+
+    logging.getLogger("esrally").addHandler(logging.NullHandler())
     mod = importlib.import_module("harness.drivers." + pid.lower())
     ctx = Ctx(pid, tier, seed)
     out = Outcome(pid)
